@@ -314,6 +314,45 @@ Theorem C18_download_streams_when_unread : forall cfg b r,
 Proof. exact download_streams_when_unread. Qed.
 Print Assumptions C18_download_streams_when_unread.
 
+(* ---- any state checker: the verdict of a custom resultStateCheckFunc is an arbitrary value ---- *)
+Theorem C18_custom_checker_decides : forall r s, r_present r = true -> r_chk r = Some s -> result_state r = s.
+Proof. exact custom_checker_decides. Qed.
+Print Assumptions C18_custom_checker_decides.
+
+Theorem C18_other_state_binds_nothing : forall tg b r,
+  result_state r <> SuccessState -> result_state r <> ErrorState ->
+  parse_response_body tg b r = (r, None).
+Proof. exact other_state_binds_nothing. Qed.
+Print Assumptions C18_other_state_binds_nothing.
+
+Theorem C18_checker_overrides_status : forall tg b r,
+  r_present r = true -> r_chk r = Some ErrorState -> r_result r = false ->
+  r_result (fst (parse_response_body tg b r)) = false.
+Proof. exact checker_overrides_status. Qed.
+Print Assumptions C18_checker_overrides_status.
+
+(* ---- several attempts: the caller gets the LAST attempt's bindings only ---- *)
+Theorem C18_retry_clears_bindings : forall fl cfg a n prev r l,
+  do_attempt fl cfg a n prev = (Again r, l) -> r_result r = false /\ r_error r = ENone /\ r_cached r = false.
+Proof. exact retry_clears_bindings. Qed.
+Print Assumptions C18_retry_clears_bindings.
+
+Theorem C18_attempt_independent_of_prev : forall fl cfg a n prev prev',
+  fst (run_before (a_ud a) 0) = None -> a_bi a = None ->
+  do_attempt fl cfg a n prev = do_attempt fl cfg a n prev'.
+Proof. exact attempt_independent_of_prev. Qed.
+Print Assumptions C18_attempt_independent_of_prev.
+
+Theorem C18_result_is_last_attempts : forall fl cfg atts n prev r e ls,
+  do_loop fl cfg atts n prev = DoRet (Some r) e ls ->
+  exists k a prev' ro e0 l,
+    k = (length ls - 1)%nat /\ nth_error atts k = Some a /\ nth_error ls k = Some l /\
+    do_attempt fl cfg a (n + Z.of_nat k) prev' = (Stop ro e0, l) /\ do_deferred ro e0 = (Some r, e) /\
+    ((k = 0)%nat -> prev' = prev) /\
+    ((0 < k)%nat -> exists p, prev' = Some p /\ r_result p = false /\ r_error p = ENone /\ r_cached p = false).
+Proof. exact result_is_last_attempts. Qed.
+Print Assumptions C18_result_is_last_attempts.
+
 (* ---- every verb-style entry point: the table regenerated from request.go / request_wrapper.go ----
    (Get/Post/Put/Patch/Delete/Head/Options, their Must* forms, and the package-level functions on
    the default client).  A new entry point, or one whose body no longer has a modelled shape, fails
